@@ -11,6 +11,7 @@ import (
 	"math/rand/v2"
 	"sort"
 	"strings"
+	"sync"
 	"time"
 )
 
@@ -111,16 +112,21 @@ type MWView struct {
 }
 
 type MWRun struct {
-	P           *MWParams
-	W           *World
-	X           *Exec
-	Lay         Layout
-	Accepted    map[int]MStmt        // by statement ID (retries share the ID of the original)
-	Own         map[string][]int     // version name -> IDs of statements committed by it
-	VerObj      map[string]*RootInfo // every version object ever PUT
-	Views       []MWView
-	Tables      map[string]string
-	Errs        []string
+	P        *MWParams
+	W        *World
+	X        *Exec
+	Lay      Layout
+	Accepted map[int]MStmt        // by statement ID (retries share the ID of the original)
+	Own      map[string][]int     // version name -> IDs of statements committed by it
+	VerObj   map[string]*RootInfo // every version object ever PUT
+	Views    []MWView
+	Tables   map[string]string
+	Errs     []string
+	// StmtStart: for every version object, what the committing client's clock showed when the statement
+	// (or open, or refresh) that published it was issued: a lower bound of the version's creation time
+	StmtStart   map[string]time.Time
+	curStart    map[string]time.Time
+	startMu     sync.Mutex
 	AfterCommit func(c *Client, version string) // called on the client's goroutine after every acknowledged commit
 	NoopWrote   []string                        // statements that changed nothing but still wrote objects
 }
@@ -132,7 +138,22 @@ func (m *MWRun) observe(ev *Event, req *Request, before []byte, existed bool) {
 		if r, err := DecodeRoot(name, req.Body); err == nil {
 			m.VerObj[name] = r
 		}
+		m.startMu.Lock()
+		if t, ok := m.curStart[req.H.Client]; ok {
+			if _, seen := m.StmtStart[name]; !seen {
+				m.StmtStart[name] = t
+			}
+		}
+		m.startMu.Unlock()
 	}
+}
+
+// BeginStmt notes that the client is about to issue a statement (call before it, on the client's goroutine).
+func (m *MWRun) BeginStmt(c *Client) {
+	t := m.W.WallClock(c.Name)
+	m.startMu.Lock()
+	m.curStart[c.Name] = t
+	m.startMu.Unlock()
 }
 
 // StmtSet returns the IDs of all accepted statements contained in the given versions.
@@ -224,7 +245,7 @@ func NewMWRun(x *Exec, w *World, p *MWParams) *MWRun {
 		}
 	}
 	m := &MWRun{P: p, W: w, X: x, Lay: TableLayout("p"), Accepted: map[int]MStmt{}, Own: map[string][]int{},
-		VerObj: map[string]*RootInfo{}, Tables: map[string]string{}}
+		VerObj: map[string]*RootInfo{}, Tables: map[string]string{}, StmtStart: map[string]time.Time{}, curStart: map[string]time.Time{}}
 	prev := w.S.Observer
 	w.S.Observer = func(ev *Event, req *Request, before []byte, existed bool) {
 		if prev != nil {
@@ -242,6 +263,7 @@ func (m *MWRun) tableOpts(ro bool) TableOpts {
 // OpenTable creates the client's table (an open of the shared prefix).
 func (m *MWRun) OpenTable(c *Client, ro bool) error {
 	name := m.W.TableName(c.Name)
+	m.BeginStmt(c)
 	_, err := c.Exec(c.CreateSQL(name, m.tableOpts(ro)))
 	if err == nil {
 		m.Tables[c.Name] = name
@@ -317,6 +339,7 @@ func (m *MWRun) RunScript(c *Client, script []MWOp) {
 			continue
 		}
 		c.Step(op.Op)
+		m.BeginStmt(c)
 		switch op.Op {
 		case "advance":
 		case "begin":
